@@ -72,22 +72,35 @@ def isConnCredit : Frame → Bool
 def clientFrames (evs : List Event) : List Frame :=
   evs.filterMap fun e => match e with | .c f => some f | .p _ => none
 
-/-- one scripted operation: new state and what the peer sees (its own frame, then the client's) -/
+/-- what the peer sees of one pumped script step (`scriptStep`): its own frame (if the operation
+is one), then the client's frames -/
+def scriptEvents (st : State) (op : Op) : List Event :=
+  let (st0, fs0) := step st op
+  let (st1, fs1) := step st0 .wake
+  let (st2, fs2) := pumpAll st1 (st1.streams.map (·.id))
+  let (_, fs3) := pumpAll st2 ((st2.streams.drop st1.streams.length).map (·.id))
+  (if st.closed then [] else opEvents op fs0) ++ (fs1 ++ fs2 ++ fs3).map Event.c
+
+def isConnCreditEv : Event → Bool
+  | .c f => isConnCredit f
+  | .p _ => false
+
+/-- one scripted operation: new state and what the peer sees -/
 def xstepE (v : Variant) (st : State) : XOp → State × List Event
-  | .plain op =>
-    let (st', fs) := scriptStep st op
-    (st', if st.closed then [] else opEvents op fs)
+  | .plain op => ((scriptStep st op).1, scriptEvents st op)
   | .openCancel r cut =>
     let id := st.nextStreamID
     let (st1, fs1) := step st (.openReq r)
-    let (st2, fs2) := scriptStep st1 (.cancel id)
-    (st2, (writeBlock v.cancelBetweenFrames cut 0 fs1 ++ fs2).map Event.c)
+    ((scriptStep st1 (.cancel id)).1,
+     (if st.closed then [] else (writeBlock v.cancelBetweenFrames cut 0 fs1).map Event.c) ++
+       scriptEvents st1 (.cancel id))
   | .held fid n o =>
-    let (st1, fs1) := scriptStep st (.feed fid n)
-    let (st2, fs2) := scriptStep st1 o
+    let st1 := (scriptStep st (.feed fid n)).1
+    let e1 := scriptEvents st (.feed fid n)
+    let e2 := scriptEvents st1 o
     -- (`closeTryLock`: a writer was parked, so `cc.wmu` was taken: the committed credit is not written)
-    let fs2' := if v.closeTryLock ∧ !fs1.isEmpty then fs2.filter (fun f => !isConnCredit f) else fs2
-    (st2, fs1.map Event.c ++ (if st1.closed then [] else opEvents o fs2'))
+    ((scriptStep st1 o).1,
+     e1 ++ (if v.closeTryLock ∧ !(clientFrames e1).isEmpty then e2.filter (fun e => !isConnCreditEv e) else e2))
 
 def xstep (v : Variant) (st : State) (x : XOp) : State × List Frame :=
   ((xstepE v st x).1, clientFrames (xstepE v st x).2)
